@@ -12,6 +12,7 @@ import (
 // whether the channel is still open. The error indicates whether the context
 // has been canceled.
 func Pop[T any](ctx context.Context, ch <-chan T) (T, bool, error) {
+	VerifYield("pop")
 	var res T
 	select {
 	case d, ok := <-ch:
@@ -24,6 +25,7 @@ func Pop[T any](ctx context.Context, ch <-chan T) (T, bool, error) {
 // Push tries to push a T to the ch. The error indicates whether the context
 // has been canceled.
 func Push[T any](ctx context.Context, ch chan<- T, ts ...T) error {
+	VerifYield("push")
 	for _, t := range ts {
 		select {
 		case <-ctx.Done():
@@ -112,13 +114,19 @@ func Seq[T any](ctx context.Context, ts []T, fs ...func(T) error) ([]T, error) {
 		return nil
 	})
 	workers = append(workers, w)
+	verifStage := VerifSeqID() * 1000
 	for _, f := range fs {
 		f, inCh := f, prevCh
+		verifStage++
+		verifIdx := verifStage
 		ch, w := Produce(func(ctx context.Context, ch chan<- T) error {
 			return ForEach(ctx, inCh, func(t T) error {
+				VerifEvent(verifIdx, "begin", t)
 				if err := f(t); err != nil {
+					VerifEvent(verifIdx, "fail", t)
 					return err
 				}
+				VerifEvent(verifIdx, "end", t)
 				return Push(ctx, ch, t)
 			})
 		})
